@@ -315,6 +315,13 @@ func singleValues(thorough bool) []param {
 		long[i] = strAlphabet[i%len(strAlphabet)]
 	}
 	out = append(out, strParam(mysql.TypeVarString, long), strParam(mysql.TypeLongBlob, long))
+	// well-formed multi-byte UTF-8 (added after seeded change c15-1 was only seen through the
+	// NO_BACKSLASH_ESCAPES modes): characters whose code point has a low byte that is an
+	// escapable ASCII byte (00 08 09 0a 0d 1a 22 27 5c) next to ordinary ones, so that an
+	// escaper working on runes but indexing its table with byte(rune) is visible
+	for _, u := range []string{"ħ", "Ŝ", "Ā", "Ĉ", "ĉ", "Ċ", "č", "Ě", "Ģ", "一", "上", "😀", "é", "中文", "aħb", "第一行, 上丧", "ħ'", "\\Ŝ"} {
+		out = append(out, strParam(mysql.TypeVarString, []byte(u)), strParam(mysql.TypeBlob, []byte(u)))
+	}
 	// every string-like type code with the short strings
 	for _, t := range stringTypes[2:] {
 		for _, b := range allStrings(1) {
